@@ -50,20 +50,20 @@ type constructs struct {
 	joinStrategy   bool
 	arrayIndex     bool
 	nodes          int
-	valArg         bool // a `?` placeholder (SQLVal of type ValArg)
-	strNeedsEscape bool // a string literal containing a byte the printer escapes but the tokenizer does not decode
-	orderNullRand  bool // ORDER BY NULL / rand() with an explicit direction
-	otherStmt      bool // the statement is one of vitess' placeholder nodes OtherRead / OtherAdmin
-	funcNameQuoted bool // a function whose name cannot be printed bare (was written in backticks)
-	unitQuoted     bool // an INTERVAL unit that cannot be printed bare
-	typeQuoted     bool // a cast type name that cannot be printed bare
-	setNameQuoted  bool // a SET variable name that cannot be printed bare
-	emptyIdent     bool // a dotted name with an empty part (`t.&&`: the tokenizer returns no text for && and ||)
+	valArg         bool            // a `?` placeholder (SQLVal of type ValArg)
+	strNeedsEscape bool            // a string literal containing a byte the printer escapes but the tokenizer does not decode
+	orderNullRand  bool            // ORDER BY NULL / rand() with an explicit direction
+	otherStmt      bool            // the statement is one of vitess' placeholder nodes OtherRead / OtherAdmin
+	funcNameQuoted bool            // a function whose name cannot be printed bare (was written in backticks)
+	unitQuoted     bool            // an INTERVAL unit that cannot be printed bare
+	typeQuoted     bool            // a cast type name that cannot be printed bare
+	setNameQuoted  bool            // a SET variable name that cannot be printed bare
+	emptyIdent     bool            // a dotted name with an empty part (`t.&&`: the tokenizer returns no text for && and ||)
 	rawStrings     map[string]bool // values of plain string fields (names the tree keeps as raw strings: charset, unit, type ...)
 	rawQuotedName  bool            // one of them is a quoted identifier of the input that cannot be read bare
-	root           string // type name of the statement node
-	gcSeparator    bool   // a GROUP_CONCAT separator containing a quote or backslash (kept as pre-rendered text)
-	oddDottedPart  bool // a dotted name whose later part starts with '/', '.' or '@' (re-tokenized as a path / variable when printed)
+	root           string          // type name of the statement node
+	gcSeparator    bool            // a GROUP_CONCAT separator containing a quote or backslash (kept as pre-rendered text)
+	oddDottedPart  bool            // a dotted name whose later part starts with '/', '.' or '@' (re-tokenized as a path / variable when printed)
 }
 
 // bareOK reports, by asking the parser itself, whether `name` written bare at the hole of the
